@@ -24,7 +24,8 @@ ASSUMPTIONS = ['simulated kernel calibrated; the PUB socket is a recorder (no tr
 BUDGET = {'quick': 240, 'thorough': 1500}
 CAP = 60
 KINDS = ['incr', 'decr', 'setnp', 'restart', 'reload', 'reloadseq', 'reloadterm', 'stop', 'start', 'kill',
-         'extkill', 'selfexit', 'selfexit', 'sigexit', 'sigexit', 'check', 'check', 'advance', 'dieat', 'qpoint']
+         'extkill', 'selfexit', 'selfexit', 'sigexit', 'sigexit', 'check', 'check', 'advance', 'dieat', 'qpoint',
+         'signal_nf']
 TERM_SIGS = [1, 2, 3, 6, 9, 10, 11, 12, 13, 14, 15]
 
 
@@ -33,9 +34,21 @@ def gen_spec(rnd):
     if rnd.random() < .35:
         ws.append(simgen.gen_watcher(rnd, 'b', np_choices=(1, 2)))
     names = [w['name'] for w in ws]
+    if rnd.random() < .2:
+        # a signal hook that vetoes (false) or fails: the stop signal is withheld, the worker lives through the
+        # grace period unless it exits by itself; only signal hooks, the start/stop hooks belong to C14
+        ws[0]['hooks'] = {rnd.choice(['before_signal', 'after_signal']): [rnd.choice(['false', 'raise', 'true']),
+                                                                          rnd.random() < .3]}
     steps = []
     for _ in range(rnd.randint(1, 9)):
         k = rnd.choice(KINDS)
+        if k == 'signal_nf':
+            # a relayed signal the worker survives (WINCH, URG and CHLD are ignored by default)
+            p = {'name': rnd.choice(names), 'signum': rnd.choice([28, 23, 'winch', 17, 'SIGURG'])}
+            if rnd.random() < .5:
+                p['recursive'] = True
+            steps.append(['req', 'signal', p])
+            continue
         steps.append(['qpoint'] if k == 'qpoint' else simgen.gen_step(rnd, names, [k]))
         if rnd.random() < .4:
             steps.append(['adv', rnd.choice([0, .05, .3])])
@@ -160,6 +173,7 @@ class Reconstruction:
         self.up = {}          # watcher -> set of pids believed alive
         self.spawned = {}     # pid -> count of spawn events
         self.reaped = {}      # pid -> [exit_code]
+        self.killed = {}      # pid -> time of its first kill event
         self.pos = 0
         self.last_ss = {}     # watcher -> last start/stop
 
@@ -191,6 +205,7 @@ class Reconstruction:
                 up.discard(pid)
             elif kind == 'kill':
                 res.obs['ev_kill'] += 1
+                self.killed.setdefault(pid, t)
                 if pid in up:
                     up.discard(pid)
             elif kind in ('start', 'stop'):
@@ -239,12 +254,17 @@ def judge(w, h, res, rec, steps):
             res.violation('C09/spawn-event-count', 'pid %d (%s) has %d spawn events' % (pid, p.tag, c), steps=steps)
         # exit_code clause: died by itself / from outside while its watcher was active
         if p.state == 'gone' and p.cause in ('self', 'ext'):
-            if any(snd == 'circus' for (t, sg, snd) in p.signals):
-                # the daemon was terminating / signalling this worker itself (possibly a few
-                # microseconds after it died): the statement restricts the exit_code clause to
-                # workers that die by themselves or from outside; recorded, not judged
-                res.ambiguous['self-death racing a daemon-sent signal'] += 1
+            if pid in rec.killed or any(snd == 'circus' and (p.exit_t is None or t >= p.exit_t - 0.01)
+                                        for (t, sg, snd) in p.signals):
+                # the daemon had announced that it is terminating this worker (kill event: a subscriber drops the
+                # pid there), or signalled it at the very moment it died / while it was a zombie: "exits by
+                # itself" and "terminated by the daemon" cannot be told apart; recorded, not judged
+                res.ambiguous['self-death racing a daemon-sent termination'] += 1
                 continue
+            if any(snd == 'circus' for (t, sg, snd) in p.signals):
+                # an earlier signal relayed by a `signal` request that the worker survived: it is still listed
+                # by every subscriber, so when it later exits by itself the clause applies
+                res.obs['self_deaths_after_a_survived_daemon_signal'] += 1
             want = -int(p.status & 0x7f) if (p.status & 0x7f) else (p.status >> 8) & 0xff
             got = rec.reaped.get(pid)
             active_then = _active_at(w, p)
